@@ -161,7 +161,7 @@ def w_adc(ctx, rng, i):
         x = np.round(rng.normal(0, 40, n_samp)).astype(int)    # integer-dtype samples
     if np.unique(x).size < 2:
         raise core.Skip()
-    form = int(rng.integers(3)) if x.dtype.kind == 'f' else 2 * int(rng.integers(2))
+    form = int(rng.integers(5)) if x.dtype.kind == 'f' else 2 * int(rng.integers(2))
     ctx.describe(dist=dist, n_samp=n_samp, scale=scale, offset=offset, nbits=nbits, otype=otype, form=form)
     with core.quiet():
         if form == 0:
@@ -169,6 +169,10 @@ def w_adc(ctx, rng, i):
         elif form == 1:
             nz = rng.normal(0, 0.05 * scale, n_samp)
             inp = T.electrical_signal(x - nz, nz)
+        elif form == 3:      # a real waveform carried in a complex container with zero imaginary part (what DAC and electrical_signal('...') hold)
+            inp = T.electrical_signal(x.astype(complex))
+        elif form == 4:
+            inp = x.astype(complex)
         else:
             inp = x
         d0 = core.digest(x)
